@@ -21,9 +21,9 @@ type Backend struct {
 	Closed     int
 }
 
-func (b *Backend) Config() fs.Config            { return nil }
-func (b *Backend) CacheConfig() ml.CacheConfig  { return b.Cache }
-func (b *Backend) NewContext() ml.Context       { b.Contexts++; return &Context{b: b, max: b.maxNodes()} }
+func (b *Backend) Config() fs.Config           { return nil }
+func (b *Backend) CacheConfig() ml.CacheConfig { return b.Cache }
+func (b *Backend) NewContext() ml.Context      { b.Contexts++; return &Context{b: b, max: b.maxNodes()} }
 func (b *Backend) NewContextSize(n int) ml.Context {
 	b.Contexts++
 	return &Context{b: b, max: n}
@@ -53,11 +53,11 @@ type Context struct {
 	closed bool
 }
 
-func (c *Context) Input() ml.Context      { return c }
-func (c *Context) Layer(int) ml.Context   { return c }
-func (c *Context) MaxGraphNodes() int     { return c.max }
-func (c *Context) Reserve() error         { return nil }
-func (c *Context) Close()                 { c.closed = true; c.b.Closed++ }
+func (c *Context) Input() ml.Context    { return c }
+func (c *Context) Layer(int) ml.Context { return c }
+func (c *Context) MaxGraphNodes() int   { return c.max }
+func (c *Context) Reserve() error       { return nil }
+func (c *Context) Close()               { c.closed = true; c.b.Closed++ }
 
 func elemSize(d ml.DType) int {
 	switch d {
@@ -136,8 +136,8 @@ func (t *Tensor) Stride(n int) int {
 	}
 	return t.nb[n] * elemSize(t.dtype)
 }
-func (t *Tensor) Shape() []int      { return append([]int{}, t.ne...) }
-func (t *Tensor) DType() ml.DType   { return t.dtype }
+func (t *Tensor) Shape() []int    { return append([]int{}, t.ne...) }
+func (t *Tensor) DType() ml.DType { return t.dtype }
 func (t *Tensor) NumElem() int {
 	n := 1
 	for _, s := range t.ne {
@@ -356,3 +356,19 @@ func (t *Tensor) Clone() *Tensor {
 
 // Raw exposes the storage (harness fingerprints).
 func (t *Tensor) Raw() []float32 { return *t.buf }
+
+// Custom is a lazy node with a caller-supplied body: when executed (after all
+// deps) fn fills the logical contents of the result. Used by scripted models
+// whose output must be a function of what the cache exposed at Compute time.
+func Custom(ctx ml.Context, deps []ml.Tensor, shape []int, fn func(out []float32)) ml.Tensor {
+	out := newTensor(ml.DTypeF32, shape...)
+	n := &node{kind: "custom", dst: out}
+	for _, d := range deps {
+		if d != nil {
+			n.src = append(n.src, d.(*Tensor))
+		}
+	}
+	n.run = func() { fn(*out.buf) }
+	out.op = n
+	return out
+}
